@@ -216,7 +216,7 @@ theorem C39_signatures_checked_submit (P : Prims) (b : Block) (l : Ledger)
       by
         cases hv : verifyMulti P (P.hdrHash b.hdr.u) b.hdr.keys (OntVerif.Gen.Quorum.ledgerStore_m b.hdr.keys.length) b.hdr.sigs with
         | none => exact absurd hv h
-        | some e => simp [Step.passes, hv]⟩
+        | some e => simp [Step.passes]⟩
 
 /-- bookkeeper set replaced (same header hash): refused for every header-cache content, both paths use the same guard list -/
 theorem C39_bookkeeper_checked_any_header_cache (P : Prims) (b : Block) (sr : Hash) (l : Ledger) (cache : List (Hash × Hdr)) (ph : Hdr)
